@@ -290,6 +290,9 @@ func sortOf(t types.Type) string {
 	if t == tyIntArr {
 		return "(Array Int Int)"
 	}
+	if t == tyStrArr {
+		return "(Array Int Str)"
+	}
 	if t == tyIntSet {
 		return "(Array Int Bool)"
 	}
